@@ -207,6 +207,22 @@ class Ctx:
                                  f"{r.violated or r.error}\n{tail}")
         return r
 
+    def apalache_expect_ok(self, relpath, init, inv, length, timeout=1500, tag=""):
+        """Run apalache-mc check on spec/<relpath>; anything but 'EXITCODE: OK' is a machinery failure (the specification's own
+        invariant is not inductive / Apalache unavailable), never a verdict on the code."""
+        import subprocess
+        out = os.path.join(self.work, f"apa-{next(_COUNTER)}")
+        t0 = time.time()
+        try:
+            p = subprocess.run(["apalache-mc", "check", f"--init={init}", f"--inv={inv}", f"--length={length}", f"--out-dir={out}",
+                                os.path.join(SPEC, relpath)], capture_output=True, text=True, timeout=timeout, cwd=os.path.dirname(os.path.join(SPEC, relpath)))
+        except (OSError, subprocess.TimeoutExpired) as e:
+            raise MachineryError(f"apalache run failed: {relpath} {init}/{inv}: {e}")
+        shutil.rmtree(out, ignore_errors=True)
+        if "EXITCODE: OK" not in p.stdout:
+            raise MachineryError(f"apalache: {relpath} --init={init} --inv={inv} --length={length}: {p.stdout[-800:]}")
+        self.extra.setdefault("apalache", []).append({"module": relpath, "init": init, "inv": inv, "length": length, "wall_s": round(time.time() - t0, 1), "tag": tag})
+
     def require_actions(self, r, names):
         """Vacuity guard: every named action must have been taken at least once."""
         missing = [n for n in names if r.actions.get(n, (0, 0))[1] == 0]
